@@ -111,6 +111,14 @@ def check(ctx):
             for (tag, x), o in zip(pts, outs):
                 xa = np.array(x, dtype=float)
                 y = float(fn(xa))
+                # optimizers hand the objective a column array of shape (n_variables, 1): same point, same value
+                try:
+                    yc = float(np.asarray(fn(xa.reshape(-1, 1))).reshape(-1)[0])
+                except Exception as ex:
+                    yc = None
+                    C.issue('benchmark-raised-on-column-array', 'oracle', dict(how='bench', name=name, x=x, column=True), error=repr(ex)[:100])
+                if yc is not None and not close(yc, y) and not (yc != yc and y != y):
+                    C.issue('not-the-documented-formula', 'oracle', dict(how='bench', name=name, x=x, column=True), got=yc, reference=y)
                 rp = dict(how='bench', name=name, x=x)
                 if o in ('bad-op', 'error'):
                     C.issue('benchmark-mismatch', 'correspondence', rp, model=o)
@@ -232,7 +240,8 @@ def replay(prop, payload):
     np = L['np']
     import opytimizer.math.benchmark as bm
     name, x = payload['name'], payload['x']
-    y = float(getattr(bm, name)(np.array(x, dtype=float)))
+    xa_ = np.array(x, dtype=float).reshape(-1, 1) if payload.get('column') else np.array(x, dtype=float)
+    y = float(np.asarray(getattr(bm, name)(xa_)).reshape(-1)[0])
     try:
         ref = float(REF[name](x))
     except Exception:
